@@ -20,16 +20,12 @@ def main(argv=None) -> int:
     ap.add_argument("--tier", default=os.environ.get("VERIF_TIER") or "quick", choices=["quick", "thorough"])
     ap.add_argument("--root", default=str(DEFAULT_ROOT))
     ap.add_argument("--replay", default=None, help="re-derive the verdict recorded in a replay file")
-    ap.add_argument("--demo", action="store_true", help="with --replay: also run the witness against the real package (triage aid)")
     a = ap.parse_args(argv)
     prop = a.prop.upper()
     if a.replay:
         rp = json.loads(Path(a.replay).read_text())
         prop = rp["property"]
         print(f"replaying {rp['rule']} on {rp['construct']}: {rp['detail']}")
-        if a.demo:
-            from pyab_static.demo import run_demo
-            run_demo(rp, a.root)
     try:
         mod = importlib.import_module(f"rules.{prop.lower()}")
     except ModuleNotFoundError:
